@@ -167,3 +167,22 @@ def int_of_str(ex, st, v, rest, node=None):
 
 def float_of_str(ex, st, v, node=None):
     raise Unsupported('float(str)')
+
+
+# ---- case folding: uninterpreted, constant-folded where possible -------------------------------------------
+str_lower = z3.Function('str_lower', z3.StringSort(), z3.StringSort())
+str_upper = z3.Function('str_upper', z3.StringSort(), z3.StringSort())
+
+
+def lower_of(v):
+    c = v.conc()
+    if c is not None:
+        return VStr(c.lower())
+    return VStr(str_lower(v.t))
+
+
+def upper_of(v):
+    c = v.conc()
+    if c is not None:
+        return VStr(c.upper())
+    return VStr(str_upper(v.t))
